@@ -33,7 +33,7 @@ RESIDUAL = ("(a) neglect of diffraction, (b) quadrature error on the oscillating
             "identification; (d) 'negligible walk-off/diffraction' is made quantitative in the predicate (x ≤ 0.04, L/(kW²) ≤ 1e-3) — "
             "see notes/C05.md")
 TRUSTED_EXTRA = ["tools/props/_pmtol.py: complex-aware comparison (|Δ| relative to the modulus / to the absolute quadrature sum)"]
-CHECKER_MODULES = ["Spdc.Real.PM"]
+CHECKER_MODULES = ["Spdc.Real.PM", "Spdc.Real.PlaneWave"]
 
 
 def families(tier, seed):
